@@ -128,13 +128,14 @@ Protocol == SuccessMeansCanonical /\ FailurePropagates /\ OnlyPrefixes /\ Offers
 \* what a crash leaves behind is a prefix of the canonical file (C11 then shows: a strict prefix is rejected)
 CrashLeavesPrefix == crashed => IsPrefix(sink, Canonical)
 
-\* the same predicate on a recorded run: calls = sequence of [offered (bytes), resp], resp = k >= 0 bytes
-\* taken, -1 interrupted, -2 failed; canonical and sink are byte sequences
+\* the same predicate on a recorded run: calls = sequence of [offered (first bytes of the buffer),
+\* offered_len, resp], resp = k >= 0 bytes taken, -1 interrupted, -2 failed; canonical and sink are
+\* byte sequences
 RECURSIVE CallsOk(_, _, _, _)
 CallsOk(canonical, calls, k, pos) ==
   IF k > Len(calls) THEN TRUE
   ELSE LET c == calls[k] IN
-       /\ pos + Len(c.offered) <= Len(canonical)
+       /\ pos + c.offered_len <= Len(canonical)
        /\ c.offered = SubSeq(canonical, pos + 1, pos + Len(c.offered))
        /\ CallsOk(canonical, calls, k + 1, IF c.resp > 0 THEN pos + c.resp ELSE pos)
 
